@@ -36,7 +36,7 @@ def check(ctx):
     m1.holds("collect 0", "C06_quick.cfg")
     if not ctx.quick:
         m1.holds("collect 1", "C06_quick.cfg", {"C06_A": "C06_B"}, timeout=3000)
-        m1.holds("collect 0, 4 inputs", "C06_quick.cfg", {"MaxEv = 3": "MaxEv = 4"}, timeout=3000)
+        m1.holds("collect 0, 5 inputs", "C06_quick.cfg", {"MaxEv = 3": "MaxEv = 5"}, timeout=3000)
     m1.caught("SwD3", "C06_quick.cfg")
     traces = anngen.run(ctx.seed, ctx.pick(360, 6000), ctx.pick(8, 12), INSTS, list("ABDF"), tag="c06",
                         with_sub=True, with_find=False, stop_twice=False)
